@@ -85,6 +85,8 @@ def generate(rng, tier):
             add(body[:1] + b" " * sh + body[1:-1] + b"\n" * (64 - (sh % 64)) + body[-1:], "ws-run")
     for t in G.pretty_docs(rng, quick):
         add(t, "pretty-printed")
+    for n in G.long_numbers(rng):
+        add(b"[" + n + b"]", "long-number")
     for _ in range(1500 if quick else 120000):
         add(G.gen_doc(rng, maxdepth=rng.choice([2, 4, 6])), "random")
     return cases
